@@ -47,6 +47,11 @@ func (x *Exec) doCall(fr *Frame, st *State, site ssa.Instruction, c *ssa.CallCom
 		}
 	}
 	if callee == nil {
+		if p, ok := c.Value.(*ssa.Parameter); ok {
+			// a function passed in as a parameter is an unknown but fixed pure function of
+			// its arguments' values (stated in the trusted base)
+			return x.ufCall(p.Name(), args, c.Signature(), st)
+		}
 		x.assumed["call through a function value: all heaps havoced, result unconstrained"] = true
 		x.havocAll(st)
 		return x.freshResult(fr, st, "dyn", rt)
@@ -212,17 +217,19 @@ func (x *Exec) contractCall(fr *Frame, st *State, site ssa.Instruction, callee *
 			cenv.pkg = sp.Pkg
 		}
 	}
-	for i, p := range callee.Params {
+	pnames, ptypes := sigParams(callee)
+	for i := range pnames {
 		if i < len(args) {
 			a := args[i]
 			if a.Addr != nil {
 				panic(toolErr("interior address passed to contracted callee " + short))
 			}
-			a.Typ = p.Type()
+			a.Typ = ptypes[i]
 			if a.T.S == "" {
-				a.T = x.zeroOf(p.Type())
+				a.T = x.zeroOf(ptypes[i])
 			}
-			cenv.vars[p.Name()] = a
+			cenv.vars[pnames[i]] = a
+			cenv.vars[fmt.Sprintf("arg%d", i)] = a
 		}
 	}
 	// ghost parameters of the callee are existential at the call site: not supported
@@ -235,6 +242,23 @@ func (x *Exec) contractCall(fr *Frame, st *State, site ssa.Instruction, callee *
 		}
 		name := fmt.Sprintf("pre@%s#%s@%d", short, label, x.count("pre@"+short+"#"+label))
 		x.oblige("pre", name, st.Guard, t, "precondition of "+short+": "+rq.Text, site.Pos(), false)
+	}
+	if ct.Pure {
+		// deterministic, heap-independent: an uninterpreted function of the argument values
+		var as []Val
+		for i := range args {
+			as = append(as, cenv.vars[fmt.Sprintf("arg%d", i)])
+		}
+		res := x.ufCall("lib."+short, as, callee.Signature, st)
+		penv := &SpecEnv{x: x, vars: map[string]Val{}, cur: st, old: st, pkg: cenv.pkg}
+		for k, v := range cenv.vars {
+			penv.vars[k] = v
+		}
+		x.bindResults(penv, callee, res)
+		for _, en := range ct.Ensures {
+			x.assumeUnder(st.Guard, x.evalBool(penv, en.E))
+		}
+		return res
 	}
 	pre := st.clone()
 	// frame
